@@ -25,7 +25,7 @@ MANIFEST = {
                  'z3; finite-scope counter-models replayed on the real Collective class; brute-force O(J^2) oracle as stand-in',
 }
 UNITS = ['unit_compute', 'unit_window']
-BOUNDED = ['bounded_collective']
+BOUNDED = ['bounded_collective', 'bounded_purity']
 META = {'clauses': {'C12.pairs': 'P', 'C12.sort': 'A', 'C12.count': 'P', 'C12.window': 'P', 'C12.dist': 'P'}, 'not_decided': []}
 FN = 'gemdat.collective.Collective._compute'
 COLS = ['atom index', 'start site', 'destination site', 'start time', 'stop time']
@@ -279,3 +279,10 @@ def bounded_collective(tier, seed):
         if r['reproduced']:
             st.violation('collective', r['detail'], 'verif.props.c12:replay_collective', inp)
     return st.result()
+
+
+# generic purity stand-in (arguments unchanged, second call equal, fresh call equal) over this property's API calls
+from verif.native.purity import make_bounded as _make_purity  # noqa: E402
+from verif.props.purity_reg import REG as _PURITY_REG  # noqa: E402
+PURITY = _PURITY_REG['C12']
+bounded_purity = _make_purity('C12', PURITY)
